@@ -99,7 +99,7 @@ func sanitizersForAttributeValue(c context) ([]string, error) {
 			return nil, fmt.Errorf("actions must not occur after an ambiguous URL prefix in the %q attribute value context of a %q element", c.attr.name, c.element.name)
 		}
 		prefix := c.attr.value
-		if strings.IndexByte(prefix, '&') == -1 {
+		if onlyAmpCharRefs(prefix) {
 			// Without character references that could hide a comma or white space, only the
 			// image candidate that the action continues matters.
 			prefix = srcsetCandidatePrefix(prefix)
@@ -223,6 +223,16 @@ func srcsetCandidatePrefix(value string) string {
 		}
 	}
 	return value[start:]
+}
+
+// onlyAmpCharRefs reports whether every '&' in s starts the character reference "&amp;".
+func onlyAmpCharRefs(s string) bool {
+	for i := 0; i < len(s); i++ {
+		if s[i] == '&' && !strings.HasPrefix(s[i:], "&amp;") {
+			return false
+		}
+	}
+	return true
 }
 
 // isSrcsetWhiteSpace reports whether c is ASCII whitespace.
